@@ -413,7 +413,7 @@ package rockredis
 
 //@ property C08 C09
 
-//@ noeffect (github.com/youzan/ZanRedisDB/engine.WriteBatch).Clear (*github.com/youzan/ZanRedisDB/rockredis.RockDB).fixListKey (*github.com/youzan/ZanRedisDB/metric.CollSizeHeap).Update
+//@ noeffect (*github.com/youzan/ZanRedisDB/rockredis.RockDB).fixListKey (*github.com/youzan/ZanRedisDB/metric.CollSizeHeap).Update
 
 // write batch: ghost(wbputs, wb) / ghost(wbdels, wb) count buffered puts / deletes
 //@ interface (github.com/youzan/ZanRedisDB/engine.WriteBatch).Put func(wb engine.WriteBatch, key []byte, value []byte)
@@ -423,7 +423,14 @@ package rockredis
 //@   ensures ghost(wbdels, wb) == old(ghost(wbdels, wb)) + 1
 //@   modifies ghost(wbdels, wb)
 //@ interface (github.com/youzan/ZanRedisDB/engine.WriteBatch).DeleteRange func(wb engine.WriteBatch, start []byte, end []byte)
+//@   ensures ghost(wbdels, wb) >= old(ghost(wbdels, wb))
 //@   modifies ghost(wbdels, wb)
+//@ interface (github.com/youzan/ZanRedisDB/engine.WriteBatch).Merge func(wb engine.WriteBatch, key []byte, value []byte)
+//@   ensures ghost(wbputs, wb) == old(ghost(wbputs, wb)) + 1
+//@   modifies ghost(wbputs, wb)
+//@ interface (github.com/youzan/ZanRedisDB/engine.WriteBatch).Clear func(wb engine.WriteBatch)
+//@   ensures ghost(wbputs, wb) == 0 && ghost(wbdels, wb) == 0
+//@   modifies ghost(wbputs, wb), ghost(wbdels, wb)
 
 //@ func encodeListMeta(oldh *headerMetaValue, headSeq int64, tailSeq int64, ts int64) []byte
 //@   trusted byte layout of the list meta value
@@ -454,9 +461,10 @@ package rockredis
 //@   trusted deletes every element and the meta key of the list
 //@   ensures ghost(ldeletes, db) == old(ghost(ldeletes, db)) + 1
 //@   modifies ghost(ldeletes, db), ghost(wbputs, wb), ghost(wbdels, wb)
+// ghost(commits, e) counts engine writes; ghost(cputs/cdels, e) are the batch counters handed to the last write
 //@ interface (github.com/youzan/ZanRedisDB/engine.KVEngine).Write func(e engine.KVEngine, wb engine.WriteBatch) error
-//@   ensures ghost(commits, e) == old(ghost(commits, e)) + 1
-//@   modifies ghost(commits, e)
+//@   ensures ghost(commits, e) == old(ghost(commits, e)) + 1 && ghost(cputs, e) == ghost(wbputs, wb) && ghost(cdels, e) == ghost(wbdels, wb)
+//@   modifies ghost(commits, e), ghost(cputs, e), ghost(cdels, e)
 //@ func (db *RockDB) IncrTableKeyCount(table []byte, delta int64, wb engine.WriteBatch)
 //@   trusted table key counter (merge operand)
 //@   ensures ghost(tblcnt, db) == old(ghost(tblcnt, db)) + delta
@@ -477,13 +485,75 @@ package rockredis
 //@ spec ltE(llen int64, stop int64) int64 = min(ite(stop < 0, llen + stop, stop), llen - 1)
 //@ spec ltEmpty(llen int64, start int64, stop int64) bool = ltS(llen, start) >= llen || ltS(llen, start) > ite(stop < 0, llen + stop, stop)
 //@ func (db *RockDB) ltrim2(ts int64, key []byte, startP, stopP int64) error
-//@   requires db != nil && db.wb != nil && startP > -4611686018427387904 && startP < 4611686018427387904 && stopP > -4611686018427387904 && stopP < 4611686018427387904
+//@   requires db != nil && db.wb != nil && ghost(wbputs, db.wb) == 0 && ghost(wbdels, db.wb) == 0 && startP > -4611686018427387904 && startP < 4611686018427387904 && stopP > -4611686018427387904 && stopP < 4611686018427387904
 //@   ensures result == nil && ghost(curexists, db) == 1 && ltEmpty(ghost(curlen, db), startP, stopP) ==> ghost(ldeletes, db) == old(ghost(ldeletes, db)) + 1 && ghost(lmsets, db) == old(ghost(lmsets, db))
 //@   ensures result == nil && ghost(curexists, db) == 1 && !ltEmpty(ghost(curlen, db), startP, stopP) ==> ghost(ldeletes, db) == old(ghost(ldeletes, db)) && ghost(lmsets, db) == old(ghost(lmsets, db)) + 1 && ghost(lmhead, db) == ghost(curhead, db) + ltS(ghost(curlen, db), startP) && ghost(lmtail, db) == ghost(curhead, db) + ltE(ghost(curlen, db), stopP)
 //@   ensures result == nil && ghost(curexists, db) == 1 ==> ghost(commits, db.rockEng) == old(ghost(commits, db.rockEng)) + 1
+//@   ensures ghost(wbputs, db.wb) == 0 && ghost(wbdels, db.wb) == 0
 //@   ensures ghost(curexists, db) == 1 && 1 <= len(key) && len(key) <= MaxKeySize && result != nil ==> ghost(commits, db.rockEng) == old(ghost(commits, db.rockEng)) + 1
-//@   modifies ghost(wbputs, _), ghost(wbdels, _), ghost(lmhead, db), ghost(lmtail, db), ghost(lmsets, db), ghost(ldeletes, db), ghost(commits, _), ghost(tblcnt, db), ghost(expdels, _)
+//@   modifies ghost(wbputs, _), ghost(wbdels, _), ghost(lmhead, db), ghost(lmtail, db), ghost(lmsets, db), ghost(ldeletes, db), ghost(commits, _), ghost(cputs, _), ghost(cdels, _), ghost(tblcnt, db), ghost(expdels, _)
 //@   loop 1
 //@   invariant 0 <= i && i <= start
 //@   loop 2
 //@   invariant stop + 1 <= i && i <= llen
+
+// ---- string (KV) read-modify-write commands ----
+// ghost(kvexpired, db) / ghost(kvlen, db): whether the stored value of the key being written is expired (at the
+// log timestamp) and the length of its user data (0 when absent)
+//@ func (db *RockDB) prepareKVValueForWrite(ts int64, rawKey []byte, reset bool) (verKeyInfo, []byte, error)
+//@   trusted reads the stored value through the engine and the expiry policy; stored values obey MaxValueSize
+//@   ensures result2 == nil ==> result0.OldHeader != nil && fresh(result1) && len(result1) == ghost(kvlen, db) && len(result1) <= MaxValueSize
+//@   ensures result2 == nil ==> (result0.Expired <==> ghost(kvexpired, db) == 1)
+//@   ensures result2 != nil ==> result1 == nil
+//@ func (db *RockDB) encodeRealValueToDBRawValue(ts int64, oldh *headerMetaValue, value []byte) []byte
+//@   trusted header + user data + 8 byte modify time
+//@   requires oldh != nil
+//@   ensures fresh(result)
+//@ func (r *RockDB) CommitBatchWrite() error
+//@   requires r != nil && r.wb != nil
+//@   ensures ghost(commits, r.rockEng) == old(ghost(commits, r.rockEng)) + 1 && ghost(cputs, r.rockEng) == old(ghost(wbputs, r.wb)) && ghost(cdels, r.rockEng) == old(ghost(wbdels, r.wb))
+//@   ensures ghost(wbputs, r.wb) == 0 && ghost(wbdels, r.wb) == 0
+//@   modifies r.isBatching, ghost(commits, r.rockEng), ghost(cputs, r.rockEng), ghost(cdels, r.rockEng), ghost(wbputs, r.wb), ghost(wbdels, r.wb)
+
+// the live length of the stored string: an expired value is dead (C10), an absent one is empty
+//@ spec kvLive(db *RockDB) int = ite(ghost(kvexpired, db) == 1, 0, ghost(kvlen, db))
+
+// SETRANGE key offset value: the reply is the length of the resulting string, max(old length, offset+len(value));
+// an empty value changes nothing; a bad offset is an error, never a panic
+//@ func (db *RockDB) SetRange(ts int64, rawKey []byte, offset int, value []byte) (int64, error)
+//@   requires db != nil && db.wb != nil && ghost(wbputs, db.wb) == 0 && ghost(wbdels, db.wb) == 0 && ghost(kvlen, db) >= 0
+//@   ensures result1 == nil && len(value) > 0 ==> result0 == max(kvLive(db), offset + len(value)) && offset >= 0
+//@   ensures result1 == nil && len(value) > 0 ==> ghost(commits, db.rockEng) == old(ghost(commits, db.rockEng)) + 1 && ghost(cputs, db.rockEng) == 1
+//@   ensures len(value) == 0 ==> result1 == nil && ghost(commits, db.rockEng) == old(ghost(commits, db.rockEng))
+//@   ensures len(value) == 0 ==> result0 == kvLive(db)
+//@   ensures offset < 0 && len(value) > 0 ==> result1 != nil
+//@   ensures ghost(wbputs, db.wb) == 0 && ghost(wbdels, db.wb) == 0
+//@   modifies db.isBatching, ghost(commits, _), ghost(cputs, _), ghost(cdels, _), ghost(wbputs, _), ghost(wbdels, _), ghost(tblcnt, db)
+
+// APPEND key value: the reply is the new length = live old length + len(value)
+//@ func (db *RockDB) Append(ts int64, rawKey []byte, value []byte) (int64, error)
+//@   requires db != nil && db.wb != nil && ghost(wbputs, db.wb) == 0 && ghost(wbdels, db.wb) == 0 && ghost(kvlen, db) >= 0
+//@   ensures result1 == nil && len(value) > 0 ==> result0 == kvLive(db) + len(value)
+//@   ensures result1 == nil && len(value) > 0 ==> ghost(commits, db.rockEng) == old(ghost(commits, db.rockEng)) + 1 && ghost(cputs, db.rockEng) == 1
+//@   ensures len(value) == 0 ==> result1 == nil && ghost(commits, db.rockEng) == old(ghost(commits, db.rockEng))
+//@   ensures len(value) == 0 ==> result0 == kvLive(db)
+//@   ensures ghost(wbputs, db.wb) == 0 && ghost(wbdels, db.wb) == 0
+//@   modifies db.isBatching, ghost(commits, _), ghost(cputs, _), ghost(cdels, _), ghost(wbputs, _), ghost(wbdels, _), ghost(tblcnt, db)
+
+// GETRANGE normalisation (Redis): negative indexes count from the end, then both are clamped into [0, len-1]
+//@ func getRange(start int64, end int64, valLen int64) (int64, int64)
+//@   requires valLen >= 0 && valLen <= 4611686018427387904 && start > -4611686018427387904 && start < 4611686018427387904 && end > -4611686018427387904 && end < 4611686018427387904
+//@   ensures result0 == max(ite(start < 0, valLen + start, start), 0)
+//@   ensures result1 == min(max(ite(end < 0, valLen + end, end), 0), valLen - 1)
+//@   ensures result0 >= 0 && result1 < valLen
+
+// rank window of ZRANGE / ZREVRANGE / ZREMRANGEBYRANK over total members: start/stop negative count from the end,
+// start is clamped to 0; an inverted window or one starting past the end selects nothing (offset -1)
+//@ spec zlS(total int64, start int) int = max(ite(start < 0, total + start, start), 0)
+//@ spec zlE(total int64, stop int) int = ite(stop < 0, total + stop, stop)
+//@ func (db *RockDB) zParseLimit(total int64, start int, stop int) (offset int, count int, err error)
+//@   requires total >= 0 && total < 4611686018427387904 && start > -4611686018427387904 && start < 4611686018427387904 && stop > -4611686018427387904 && stop < 4611686018427387904
+//@   ensures err == nil
+//@   ensures zlS(total, start) > zlE(total, stop) ==> offset == -1
+//@   ensures offset == -1 ==> zlS(total, start) > zlE(total, stop) || zlS(total, start) >= total
+//@   ensures offset != -1 ==> offset == zlS(total, start) && count == zlE(total, stop) - zlS(total, start) + 1 && count >= 1
